@@ -45,7 +45,7 @@ func VerifC12Watch() {
 	var insW []wkey
 	// PRESET: concrete pre-state shapes that need 3+ keys (inner node with a
 	// leaf and one/two children below a node4 root), then N1 symbolic inserts
-	for _, k := range [][]string{nil, {"a", "ab", "x"}, {"ab", "abc", "abd", "x"}, {"a", "ab", "abc", "x"}, nil, {"ab", "ac", "x"}, {"a1", "a2", "a3", "a4", "a5", "x"}, {"a", "abc", "abd", "x"}}[vnd.Param("PRESET", 0)] {
+	for _, k := range [][]string{nil, {"a", "ab", "x"}, {"ab", "abc", "abd", "x"}, {"a", "ab", "abc", "x"}, nil, {"ab", "ac", "x"}, {"a1", "a2", "a3", "a4", "a5", "x"}, {"a", "abc", "abd", "x"}, {"ab", "ac", "ad", "x"}}[vnd.Param("PRESET", 0)] {
 		txn.Insert([]byte(k), 5)
 		model.Put([]byte(k), 5)
 	}
@@ -122,7 +122,11 @@ func VerifC12Watch() {
 		if i == 0 && vnd.Param("FIRSTDEL", 0) == 1 {
 			opLo = 2
 		}
-		switch vnd.IntRange("op", opLo, 2) {
+		opHi := 2
+		if i == 0 && vnd.Param("FIRSTINS", 0) == 1 {
+			opHi = 0
+		}
+		switch vnd.IntRange("op", opLo, opHi) {
 		case 0:
 			txn.Insert(k, uint64(20+i))
 			model.Put(k, uint64(20+i))
@@ -194,9 +198,16 @@ func VerifC12Watch() {
 		_, absW2, _ := newTree.Get([]byte{0xfe, 0xfe, 0xfe})
 		t3 := newTree.Txn()
 		t3.Insert([]byte{0xfe, 0xfe, 0xfe}, 1)
-		t3.CommitAndNotify()
+		tree3 := t3.CommitAndNotify()
 		vnd.Assert(vnd.IsClosed(rootW2), "C12.followup.root-watch-not-closed")
 		vnd.Assert(vnd.IsClosed(absW2), "C12.followup.get-watch-not-closed")
+		if tgW != nil {
+			// ... and so does the channel handed out inside the transaction, at the latest now
+			t4 := tree3.Txn()
+			t4.Insert(tk, 9)
+			t4.CommitAndNotify()
+			vnd.Assert(vnd.IsClosed(tgW), "C12.txnget.followup-not-closed")
+		}
 		vnd.Cover("C12.committed")
 	case 1: // commit without notify: nothing may be closed
 		txn.Commit()
